@@ -90,6 +90,9 @@ func (s *Sched) osStep(op string, args []string, enabled func() bool, do func(f 
 		case FFail:
 			err = ErrInjected
 			return "fail"
+		case FErrno:
+			err = f.Err
+			return errRes(err)
 		case FCrashAfter:
 			crashAfter = true
 		}
